@@ -29,7 +29,7 @@ class Unit:
 
     def __init__(self, name, body, modules=(), opts=None, expect_cover=(), mutants=(), twin_runs=40,
                  time_budget_s=600, object_lp=False, extra_patches=None, witness_every=0,
-                 allow_out_of_bound=True, setup=None, nproc=None, describe=""):
+                 allow_out_of_bound=True, setup=None, nproc=None, describe="", heavy=False):
         self.name = name
         self.body = body
         self.modules = list(modules)
@@ -45,6 +45,7 @@ class Unit:
         self.setup = setup
         self.nproc = nproc
         self.describe = describe
+        self.heavy = heavy  # explored with engine-level parallelism, one unit at a time
 
 
 def _resolve(qualname):
@@ -267,7 +268,9 @@ class PropertyRun:
                 return unit.body(ctx)
 
             with self._contexts(unit, True):
-                magg = engine.explore(mbody, unit.opts, nproc=unit.nproc, time_budget_s=min(120, unit.time_budget_s))
+                mopts = dict(unit.opts, _stop_on_violation=True)
+                mopts["timeout_ms"] = min(10000, mopts.get("timeout_ms", 20000))
+                magg = engine.explore(mbody, mopts, nproc=unit.nproc, time_budget_s=min(120, unit.time_budget_s))
             if magg.violations:
                 self.mutants_caught += 1
             else:
@@ -435,16 +438,90 @@ def _par_task(i):
     return run.export()
 
 
-def run_units_parallel(run, units, nproc):
-    """Run many small units concurrently (one process per unit, each single-threaded)."""
+def _child(i, conn):
+    try:
+        conn.send(_par_task(i))
+    except BaseException as e:  # noqa
+        try:
+            conn.send(dict(_crash=f"{type(e).__name__}: {e}"))
+        except Exception:
+            pass
+    finally:
+        conn.close()
+
+
+def run_units_parallel(run, units, width):
+    """Run every unit in its own forked process under a hard wall-clock cap
+    (z3 can overrun its own timeout; a stuck unit is killed and reported as
+    inconclusive, never as success).  `width` units run concurrently."""
     global _PAR_UNITS, _PAR_ARGS
     import multiprocessing as mp
     _PAR_UNITS, _PAR_ARGS = units, (run.pid, run.tier, run.seed)
-    for u in units:
-        u.nproc = 1
-    with mp.get_context("fork").Pool(nproc) as pool:
-        for d in pool.imap(_par_task, range(len(units))):
+    ctx = mp.get_context("fork")
+    if width > 1:
+        for u in units:
+            if not u.heavy:
+                u.nproc = 1
+    pending = [i for i in range(len(units)) if not units[i].heavy] + [i for i in range(len(units)) if units[i].heavy]
+    running = {}
+    results = {}
+    while pending or running:
+        while pending and len(running) < width:
+            if units[pending[0]].heavy and running:
+                break  # heavy units run alone
+            i = pending.pop(0)
+            pc, cc = ctx.Pipe(duplex=False)
+            p = ctx.Process(target=_child, args=(i, cc))
+            p.daemon = False
+            p.start()
+            cc.close()
+            running[i] = (p, pc, time.time() + units[i].time_budget_s * 1.5 + 180)
+            if units[i].heavy:
+                break
+        for i, (p, pc, deadline) in list(running.items()):
+            got = None
+            if pc.poll(0.05):
+                try:
+                    got = pc.recv()
+                except EOFError:
+                    got = dict(_crash="child exited without a result")
+            elif not p.is_alive():
+                got = dict(_crash=f"child died (exit code {p.exitcode})")
+            elif time.time() > deadline:
+                _kill_tree(p)
+                got = dict(_timeout=True)
+            if got is not None:
+                p.join(timeout=5)
+                if p.is_alive():
+                    _kill_tree(p)
+                del running[i]
+                results[i] = got
+    for i in range(len(units)):
+        d = results[i]
+        if "_timeout" in d:
+            run.inconclusive.append(f"{units[i].name}: exceeded the hard wall-clock cap and was killed (solver overran its timeout)")
+        elif "_crash" in d:
+            run.errors.append(f"{units[i].name}: {d['_crash']}")
+        else:
             run.absorb(d)
+
+
+def _kill_tree(p):
+    import signal
+    try:
+        import subprocess
+        out = subprocess.run(["pgrep", "-P", str(p.pid)], capture_output=True, text=True).stdout.split()
+        for c in out:
+            try:
+                os.kill(int(c), signal.SIGKILL)
+            except OSError:
+                pass
+    except Exception:
+        pass
+    try:
+        p.kill()
+    except Exception:
+        pass
 
 
 def replay_file(path):
@@ -491,11 +568,8 @@ def main(argv):
         if hasattr(mod, "pre"):
             mod.pre(run, a.tier)
         us = [u for u in mod.units(a.tier) if not a.unit or u.name in a.unit]
-        if getattr(mod, "PARALLEL_UNITS", False) and len(us) > 1:
-            run_units_parallel(run, us, int(os.environ.get("VERIF_NPROC", "0")) or min(16, os.cpu_count() or 1))
-        else:
-            for u in us:
-                run.run_unit(u)
+        width = (int(os.environ.get("VERIF_NPROC", "0")) or min(16, os.cpu_count() or 1)) if getattr(mod, "PARALLEL_UNITS", False) else 1
+        run_units_parallel(run, us, width)
         extra = mod.post(run, a.tier) if hasattr(mod, "post") else ""
     except Exception as e:
         traceback.print_exc()
